@@ -137,6 +137,7 @@ FIXED = {
  "fs:delete-objects-duplicate-key": "c55c267", "fs:delete-objects-omits-missing-keys": "c55c267",
  "fs:list-parts-unordered": "764f144",
  "fs:list-delimiter-not-rolled-up": "fe72881", "fs:list-delimiter-rewrites-keys": "fe72881", "fs:list-ignores-max-keys": "fe72881",
+ "fs:complete-requires-consecutive-parts": "fa59617", "fs:complete-part-list-validation": "a00e4e8",
 }
 # repairs whose text says explicitly that it describes the code before the repair
 BEFORE = {"fs:head-missing-key-code", "fs:delete-missing-key-error", "fs:missing-bucket-reported-as-missing-key",
@@ -149,7 +150,8 @@ BEFORE = {"fs:head-missing-key-code", "fs:delete-missing-key-error", "fs:missing
           "fs:stale-checksum-after-copy", "fs:stale-metadata-after-copy",
           "fs:delete-objects-duplicate-key", "fs:delete-objects-omits-missing-keys",
           "fs:list-parts-unordered",
-          "fs:list-delimiter-not-rolled-up", "fs:list-delimiter-rewrites-keys", "fs:list-ignores-max-keys"}
+          "fs:list-delimiter-not-rolled-up", "fs:list-delimiter-rewrites-keys", "fs:list-ignores-max-keys",
+          "fs:complete-requires-consecutive-parts", "fs:complete-part-list-validation"}
 
 lines, findings = [], []
 for i, (cls, ops, what) in enumerate(W, 1):
